@@ -330,6 +330,13 @@ def _immutable_literal(node) -> bool:
     return False
 
 
+# library calls whose result is never None
+_NEVER_NONE = frozenset({"random.uniform", "random.random", "random.randint", "len", "int", "float", "str", "bytes", "bytearray", "bool",
+                         "abs", "min", "max", "sum", "round", "tuple", "list", "set", "frozenset", "dict", "sorted", "range",
+                         "enumerate", "zip", "map", "time.time", "time.monotonic", "asyncio.get_event_loop",
+                         "asyncio.get_running_loop", "asyncio.create_task", "struct.pack", "struct.Struct", "isinstance"})
+
+
 def _elem_term(it, site, n, symbolic_index=False):
     """the n-th element drawn from iterable term `it`.  enumerate(X[, start]) and zip(A, B, ..) are looked through:
     their n-th element is the pair (n + start, n-th of X) resp. the tuple of n-th elements, so that an index
@@ -1430,7 +1437,8 @@ class Engine:
                     return bool(f[1])
             if op in ("is", "is not", "==", "!=") and r == NONE:
                 tl = truthy(l)
-                if l[0] in ("new", "bound", "func", "closure", "self", "tuple", "list", "dict", "set"):
+                if l[0] in ("new", "bound", "func", "closure", "self", "tuple", "list", "dict", "set", "fstr", "binop", "comp") or \
+                        (l[0] == "call" and l[1][0] == "ext" and l[1][1] in _NEVER_NONE):
                     return op in ("is not", "!=")
                 if l[0] == "const":
                     return (l[1] is None) == (op in ("is", "=="))
@@ -1579,13 +1587,17 @@ class Engine:
                 return parts[0]
             return ("bool", "and", tuple(parts))
         if isinstance(node, ast.IfExp):
-            c = ev(node.test)
-            tv = self._decide(c, s)
-            if tv is True:
-                return ev(node.body)
-            if tv is False:
-                return ev(node.orelse)
-            return ("ite", c, ev(node.body), ev(node.orelse))
+            if s.env.get("$incomp"):
+                # inside a comprehension kept as a term the choice is per element: stays a conditional term
+                c = ev(node.test)
+                tv = self._decide(c, s)
+                if tv is True:
+                    return ev(node.body)
+                if tv is False:
+                    return ev(node.orelse)
+                return ("ite", c, ev(node.body), ev(node.orelse))
+            # `a if c else b` is the statement `if c: a else: b`: one path per outcome
+            return ev(node.body) if self._cond(node.test, s, fi, depth, ch, node) else ev(node.orelse)
         if isinstance(node, (ast.Tuple, ast.List, ast.Set)):
             tag = {ast.Tuple: "tuple", ast.List: "list", ast.Set: "set"}[type(node)]
             elems = []
@@ -1880,6 +1892,7 @@ class Engine:
         if kind == "list" and len(node.generators) == 1 and not node.generators[0].is_async \
                 and _filter_calls_element_method(node.generators[0]):
             return self._comp_as_loop(node, s, fi, depth, ch, saved)
+        s.env["$incomp"] = True
         for gi, g in enumerate(node.generators):
             it = first_it if gi == 0 and first_it is not None else self._eval(g.iter, s, fi, depth, ch)
             el = _elem_term(it, self.site(g.iter, fi), 0, symbolic_index=True)
@@ -2117,6 +2130,8 @@ class Engine:
         sub.known = dict(s.known)
         sub.env["$handlers"] = s.env.get("$handlers", ())
         sub.env["$iter"] = (s.env.get("$iter") or ()) + ((-1, getattr(node, "lineno", 0), getattr(node, "col_offset", 0)),)
+        if s.env.get("$incomp"):
+            sub.env["$incomp"] = True
         sub.loopdepth = s.loopdepth
         recv_term = recv
         self._bind_params(callee, sub, rc, recv_term, args, kwargs, root=False)
@@ -2126,7 +2141,10 @@ class Engine:
             self._active.append(callee.qual)
             try:
                 sub.events = []
-                outs = self._run_body(callee, callee.node.body, sub, depth + 1)
+                # an unknown helper is part of its caller: its body runs at the caller's depth (a rule that inlines
+                # "one level" still sees one level below the helper)
+                d2 = depth if self.is_unknown_helper(callee) and self.policy.transparent_helpers and depth < 12 else depth + 1
+                outs = self._run_body(callee, callee.node.body, sub, d2)
             finally:
                 self._active.pop()
             ch.cache[key] = outs
